@@ -5,6 +5,11 @@ HERE = os.path.dirname(os.path.dirname(os.path.abspath(__file__)))
 
 CLAIMED = {
  # id: (level, technique, text, note, design_ref)
+ "C15": ("exploration",
+         "deterministic simulation: senders, receivers and a faulty network (loss, replay, reorder, corruption, splice) checked against an independent RFC 9180 context model; bounded liveness after faults stop",
+         "Seeded search over HPKE histories: 1-2 sessions over all 5 KEMs x 3 AEADs x 4 modes, receiver-side set-up faults (enc bit flips, truncation, re-encoding of the same point, wrong info/PSK/sender/receiver key), sequences of seal() whose ciphertexts must equal the model's byte for byte, deliveries with loss, replay, reordering, bit flips, truncation, extension, AAD substitution and cross-session splices judged by the model's ContextR.Open (sequence number unchanged on failure), wrong-direction calls, sequence exhaustion, and final in-order drains that must all open once faults stop; plus invalid set-ups that must be refused. Sampling, not proof.",
+         "Trusted: the library's AES-GCM / ChaCha20-Poly1305 primitives inside the model (C02); the model's DH (Python ints), HKDF (hmac/hashlib), key schedule and nonce are independent of the code under test. The exhaustion jump sets the private _sequence attribute when present and is skipped otherwise.",
+         "DESIGN.md section 4 (C15)"),
  "C09": ("exploration",
          "deterministic simulation: seeded segmentation / buffer-carrier / output-mode histories against the one-shot reference",
          "Seeded search over histories on every stateful family (block, stream and AEAD ciphers, hashes, XOFs, MACs, strxor): partitions of AAD, message and XOF output with cut points biased to internal cache, block, rate and chunk sizes (empty segments included), a buffer carrier per segment (bytes, bytearray, read-only / writable / offset memoryview), an output mode per call (returned, output=, output aliased to the input) and re-use of the caller's buffer after the call; every byte is compared with the one-shot computation, inputs and guard bands are checked for stray writes. Sampling, not proof.",
